@@ -225,6 +225,8 @@ def plan(tier, seed):
     units.append({'part': 'env'})
     units.append({'part': 'entities'})
     for h in range(len(THREAD_HARNESSES)):
+        if tier == 'quick' and THREAD_HARNESSES[h][0] == 'two-noblock-regexes':
+            continue   # about 2000 schedules of 1350 points on one core (5-8 minutes): thorough tier only
         units.append({'part': 'threads', 'harness': h, 'bound': 2 if tier == 'quick' else 3})
     n = len(all_ops())
     return {
